@@ -9,16 +9,8 @@ import OASModel.Vec3
 -/
 namespace OAS
 
-/-- 3×3 matrix by rows -/
-structure M3 (K : Type) where
-  r0 : V3 K
-  r1 : V3 K
-  r2 : V3 K
-
 section
 variable {K : Type} [Add K] [Sub K] [Mul K] [Div K] [Neg K] [Zero K] [One K] [NatCast K]
-
-def M3.mulVec (m : M3 K) (v : V3 K) : V3 K := ⟨V3.dot m.r0 v, V3.dot m.r1 v, V3.dot m.r2 v⟩
 
 /-- `ComputeNodes.compute`: `(1 - w) * mesh[0] + w * mesh[-1]` -/
 def computeNodes (nx : Nat) (w : K) (mesh : Mesh K) : Pts K :=
